@@ -331,6 +331,16 @@ func Report(name string, c any, v *Verdict) bool {
 	return true
 }
 
+// Fuzz judges one input of a native fuzz target (the semantic oracle sits inside the target): a
+// violation that is not a listed known finding fails the input, which makes the go fuzzer minimise
+// and save it; the driver then re-judges the saved file through the replay path.
+func Fuzz(t *testing.T, name string, v *Verdict) {
+	if v == nil || IsKnown(v.Sig) || strings.HasPrefix(v.Sig, "harness:") {
+		return
+	}
+	t.Fatalf("VIOLATION-CANDIDATE check=fuzz-%s sig=%s: %s", name, v.Sig, v.Detail)
+}
+
 var keepFirst = map[string]bool{}
 
 // KeepFirst marks a check as an ordered enumeration whose first failure per signature is minimal.
